@@ -109,3 +109,6 @@ func (d *VerifDispatcher) ClientSend(v *VerifRequest) { d.c.send(*v.r) }
 
 func (d *VerifDispatcher) Cancel()               { d.c.cancel() }
 func (d *VerifDispatcher) Done() <-chan struct{} { return d.c.ctx.Done() }
+
+// VerifNumOfClient reports the sizes of the inbound / outbound connection tables.
+func VerifNumOfClient(p P2PInterface) (incoming, calling int) { return p.numOfClient() }
